@@ -132,4 +132,41 @@ theorem retain_is_string_retain (t : Bytes) (hv : Valid t) (answers : List (Opti
   unfold Spec.retain
   exact retainScan_eq_chunks t.length t answers [] (Nat.le_refl _) hv
 
+/-- `Extend<char>` with any size hint: `let _ = try_reserve(hint)` (a refusal is ignored and leaves
+everything as it was), then one `push` per item -/
+theorem extendChars_refines {rf : Refuse} {w : World} {h : Nat} {t : Bytes} (hw : Wf w) (ht : w.text h = some t)
+    (hint : Nat) (items : List (Option Bytes)) (hv : ∀ s, some s ∈ items → Valid s) :
+    ((step rf w (.extendChars h hint items)).2 = (if panics items then .panicCb else .ok .unit) ∧
+      (step rf w (.extendChars h hint items)).1.text h = some (t ++ (consumed items).flatten)) ∨
+    ((step rf w (.extendChars h hint items)).2 = .panicAlloc ∧
+      ∃ k, k < (consumed items).length ∧
+        (step rf w (.extendChars h hint items)).1.text h = some (t ++ ((consumed items).take k).flatten)) := by
+  obtain ⟨r, hg, g⟩ := good_of_text hw ht
+  have hr := reserve_sat g rf hint
+  simp only [step, hg]
+  -- after the (possibly refused) reservation the handle is still good for `t`
+  have key : ∀ hp1 r1, Good (oc w h) w.heap w.statics hp1 r1 t →
+      ((finish w h true (fun _ => Val.unit) (pushLoop rf w.statics hp1 r1 items)).2 = (if panics items then .panicCb else .ok .unit) ∧
+        (finish w h true (fun _ => Val.unit) (pushLoop rf w.statics hp1 r1 items)).1.text h = some (t ++ (consumed items).flatten)) ∨
+      ((finish w h true (fun _ => Val.unit) (pushLoop rf w.statics hp1 r1 items)).2 = .panicAlloc ∧
+        ∃ k, k < (consumed items).length ∧
+          (finish w h true (fun _ => Val.unit) (pushLoop rf w.statics hp1 r1 items)).1.text h = some (t ++ ((consumed items).take k).flatten)) := by
+    intro hp1 r1 g1
+    have hs := pushLoop_text rf items hp1 r1 t g1 hv
+    revert hs
+    cases pushLoop rf w.statics hp1 r1 items with
+    | ok v hp2 r2 => intro ⟨g2, hp⟩; left; rw [hp]; exact ⟨rfl, text_put_self g2⟩
+    | err hp2 r2 => intro ⟨k, hk, g2⟩; right; exact ⟨rfl, k, hk, text_put_self g2⟩
+    | pidx hp2 r2 => intro hf; exact hf.elim
+    | pcb hp2 r2 => intro ⟨g2, hp⟩; left; rw [hp]; exact ⟨rfl, text_put_self g2⟩
+    | ub u => intro hf; exact hf.elim
+  revert hr
+  cases reserve rf w.statics w.heap r hint with
+  | ok v hp1 r1 => intro ⟨g1, _, _⟩; exact key hp1 r1 g1
+  | err hp1 r1 => intro hu; exact key hp1 r1 (unchanged_good g hu)
+  | pidx hp1 r1 => intro hf; exact hf.elim
+  | pcb hp1 r1 => intro hf; exact hf.elim
+  | ub u => intro hf; exact hf.elim
+
+
 end LS
